@@ -70,8 +70,7 @@ M = [
     ('helper-erase-line-wrong-final', S, "    return ansi_control_sequence_introducer + str(n) + 'K'", "    return ansi_control_sequence_introducer + str(n) + 'J'"),
     ('helper-position-args-swapped', S, "    return ansi_control_sequence_introducer + str(row) + ';' + str(column) + 'H'",
      "    return ansi_control_sequence_introducer + str(column) + ';' + str(row) + 'H'"),
-    ('allow-empty-terminator-ignored', P, "                if (terminator or allow_empty_terminator) and (acceptable_terminators is None or terminator in acceptable_terminators):",
-     "                if (acceptable_terminators is None or terminator in acceptable_terminators):"),
+    ('allow-empty-terminator-ignored', P, "                    (terminator or allow_empty_terminator) and\n", ""),
     ('cs-parser-drops-second-sequence-at-index', P, "                    if idx in self.sequences:\n                        self.sequences[idx].append(current_csi)\n",
      "                    if idx in self.sequences:\n                        self.sequences[idx] = [current_csi]\n"),
     ('rgb-no-clamp-high', F, "            r=min(255, max(0, r_or_rgb))\n", "            r=max(0, r_or_rgb)\n"),
@@ -140,6 +139,30 @@ R = [
       (S, "\\^([0-9]*)\\Z', string_format, re.DOTALL)", "\\^([0-9]*)$', string_format)"),
       (S, "(:.*)?\\Z', format_spec, re.DOTALL)", "(:.*)?$', format_spec)")]),
 ]
+
+
+R.append(
+    ('r39-revert-154d93a-a-control-sequence-ending-in-m-whose-par.patch',
+     [('src/ansi_string/ansi_string.py', """        # Only a parameter string made of digits and separators is a graphic rendition. Anything else which ends with
+        # "m" is a different control function (ex: the private sequence ESC[>4;2m) and stays in the text as it is.
+        self._s = ''
+        last_key = 0
+        graphic_sequences:Dict[int,list] = {}
+        for key, value_list in parsed_str.sequences.items():
+            self._s += parsed_str.unformatted_str[last_key:key]
+            last_key = key
+            for value in value_list:
+                if re.search(r'^[0-9; ]*\\Z', value.sequence):
+                    graphic_sequences.setdefault(len(self._s), []).append(value)
+                else:
+                    self._s += ansi_control_sequence_introducer + value.sequence + value.terminator
+        self._s += parsed_str.unformatted_str[last_key:]
+        self._fmts = {}
+        for key, value_list in graphic_sequences.items():
+""", """        self._s = parsed_str.unformatted_str
+        self._fmts = {}
+        for key, value_list in parsed_str.sequences.items():
+""")]))
 
 
 def main():
